@@ -76,8 +76,13 @@ func loadEnv(goarch string) []string {
 
 // load parses and type-checks the four packages from repo's *current* working
 // tree and applies the coverage guard of DESIGN §2.
-func load(repo, goarch string) (*World, error) {
+func load(repo, goarch string) (*World, error) { return loadOverlay(repo, goarch, nil) }
+
+// loadOverlay is load with in-memory file replacements/additions (used by the
+// positive controls only; nothing is written to the repository).
+func loadOverlay(repo, goarch string, overlay map[string][]byte) (*World, error) {
 	cfg := &packages.Config{
+		Overlay: overlay,
 		Mode: packages.NeedName | packages.NeedFiles | packages.NeedCompiledGoFiles | packages.NeedImports |
 			packages.NeedTypes | packages.NeedTypesSizes | packages.NeedSyntax | packages.NeedTypesInfo | packages.NeedModule,
 		Dir:   repo,
@@ -155,9 +160,13 @@ func load(repo, goarch string) (*World, error) {
 		}
 		sort.Strings(names)
 		for _, f := range names {
-			b, err := os.ReadFile(f)
-			if err != nil {
-				return nil, err
+			b, ok := overlay[f]
+			if !ok {
+				var err error
+				b, err = os.ReadFile(f)
+				if err != nil {
+					return nil, err
+				}
 			}
 			h := sha256.Sum256(b)
 			rel, _ := filepath.Rel(repo, f)
